@@ -28,8 +28,15 @@ EXTENDS Mpt, Json, SequencesExt
 
 Trace == ndJsonDeserialize("trace.ndjson")
 
-VARIABLES l, bad, seen
-tvars == <<vars, l, bad, seen>>
+VARIABLES l, bad, prevOK
+tvars == <<vars, l, bad, prevOK>>
+
+(* A cache outside the state (TLC register 1, the monitor runs with one worker):        *)
+(* content -> the first projection observed for that content that passed every          *)
+(* judgement.  A later observation of the same content that is identical to the cached  *)
+(* one needs no re-evaluation of Canon; one that differs is judged in full and, since   *)
+(* the root must depend on the content only, is reported as history dependence.         *)
+Cache == TLCGet(1)
 
 EmptyRootHex == "56e81f171bcc55a6ff8345e692c0f86e5b48e01b996cadc001622fb5e363b421"
 
@@ -48,12 +55,6 @@ ContentAfter(c, ops) ==
 
 Empty == [k \in AllKeyIds |-> 0]
 
-(* paths of the separately stored nodes of a canonical tree, pre-order *)
-HashedOf(t) == LET f == Flat(t)
-               IN  SelectSeq([i \in 1..Len(f) |-> IF f[i][2] # "V" /\ ~f[i][4] THEN f[i][1] ELSE <<99>>],
-                             LAMBDA x : x # <<99>>)
-NitOf(t)    == LET f == Flat(t) IN [i \in 1..Len(f) |-> <<f[i][1], f[i][2] = "V", ~f[i][4]>>]
-
 (* --- the step: is (content, call, content') a step of the reference ------ *)
 JudgeStep(e, c2) ==
   CASE e.event = "Reset" ->
@@ -65,11 +66,11 @@ JudgeStep(e, c2) ==
     [] e.event = "U" ->
          Tag(~e.err, "Update.error") \o
          Tag(c2 = [content EXCEPT ![e.k] = e.v], "Inv.ReadsAfterUpdate") \o
-         Tag(e.proj.tree = UpdateTree(Canon(content), e.k, e.v), "Update.step")
+         Tag(~prevOK \/ e.proj.tree = UpdateTree(tree, e.k, e.v), "Update.step")
     [] e.event = "D" ->
          Tag(~e.err, "Delete.error") \o
          Tag(c2 = [content EXCEPT ![e.k] = 0], "Inv.ReadsAfterDelete") \o
-         Tag(e.proj.tree = Delete(Canon(content), e.k), "Delete.step")
+         Tag(~prevOK \/ e.proj.tree = Delete(tree, e.k), "Delete.step")
     [] e.event = "G" ->
          Tag(~e.err, "Get.error") \o
          Tag(e.got = content[e.k], "Inv.GetValue") \o
@@ -84,28 +85,42 @@ JudgeStep(e, c2) ==
     [] OTHER -> <<"unknown-event">>
 
 (* --- the property in the state after the call ---------------------------- *)
-JudgeInv(e, c2) ==
+ProjKey(p) == <<p.hash, p.commit, p.ref, p.fresh, p.tree, p.mem, p.hashed, p.nit, p.iter,
+                p.iterErr, p.nitErr, p.commitErr, p.storedOK, p.memOK>>
+
+FullInv(e, c2) ==
   LET p  == e.proj
       cn == Canon(c2)
+      fl == Flat(cn)
+      hashedOf == SelectSeq([i \in 1..Len(fl) |-> IF fl[i][2] # "V" /\ ~fl[i][4] THEN fl[i][1] ELSE <<99>>],
+                            LAMBDA x : x # <<99>>)
+      nitOf == [i \in 1..Len(fl) |-> <<fl[i][1], fl[i][2] = "V", ~fl[i][4]>>]
   IN  Tag(~p.iterErr /\ p.iter = IterOf(c2), "Inv.IterationOrder") \o
       Tag(p.storedOK /\ p.tree = cn, "Inv.StoredStructureCanonical") \o
       Tag(p.memOK /\ p.mem = cn, "Struct.memory") \o
-      Tag(p.hashed = HashedOf(cn), "Struct.embedded") \o
-      Tag(~p.nitErr /\ (p.nit = NitOf(cn) \/ (c2 = Empty /\ p.nit = << <<<<>>, FALSE, FALSE>> >>)),
+      Tag(p.hashed = hashedOf, "Struct.embedded") \o
+      Tag(~p.nitErr /\ (p.nit = nitOf \/ (c2 = Empty /\ p.nit = << <<<<>>, FALSE, FALSE>> >>)),
           "Struct.nodeIterator") \o
       Tag(~p.commitErr /\ p.commit = p.hash, "Inv.RootHashEqualsCommit") \o
       Tag(p.ref = p.hash, "Inv.RootIsMptRootOfStructure") \o
       Tag(p.fresh = p.hash, "Inv.RootOrderIndependent") \o
-      Tag((c2 = Empty) <=> (p.hash = EmptyRootHex), "Inv.RootEmpty") \o
-      Tag(c2 \in DOMAIN seen => seen[c2] = p.hash, "Inv.RootHistoryIndependent")
+      Tag((c2 = Empty) <=> (p.hash = EmptyRootHex), "Inv.RootEmpty")
+
+JudgeInv(e, c2) ==
+  IF c2 \in DOMAIN Cache
+    THEN IF Cache[c2] = ProjKey(e.proj) THEN <<>>
+         ELSE Tag(Cache[c2][1] = e.proj.hash, "Inv.RootHistoryIndependent") \o FullInv(e, c2)
+    ELSE FullInv(e, c2)
 
 Judge(e) ==
   LET c2 == Obs(e) IN
-  IF ~Sane(c2) THEN <<"Inv.ReadsKnownValue">>
-  ELSE JudgeStep(e, c2) \o JudgeInv(e, c2)
+  Tag(~e.panicked /\ e.proj.panic = "", "Inv.CallCompletes") \o
+  (IF ~Sane(c2) THEN <<"Inv.ReadsKnownValue">>
+   ELSE JudgeStep(e, c2) \o JudgeInv(e, c2))
 
 TraceInit == /\ content = Empty /\ tree = Nil /\ limit = 0
-             /\ l = 1 /\ bad = <<>> /\ seen = [x \in {} |-> ""]
+             /\ l = 1 /\ bad = <<>> /\ prevOK = FALSE
+             /\ TLCSet(1, [x \in {} |-> <<>>])
 
 TraceNext ==
   /\ l <= Len(Trace)
@@ -116,8 +131,9 @@ TraceNext ==
      IN  /\ content' = c2
          /\ tree' = e.proj.tree
          /\ limit' = IF e.event = "L" THEN e.v ELSE IF e.event \in {"R", "X", "Reset"} THEN 0 ELSE limit
-         /\ seen' = IF c2 \in DOMAIN seen THEN seen ELSE seen @@ (c2 :> e.proj.hash)
+         /\ prevOK' = (j = <<>>)
          /\ bad' = bad \o [i \in 1..Len(j) |-> <<l, e.event, j[i]>>]
+         /\ IF j = <<>> /\ c2 \notin DOMAIN Cache THEN TLCSet(1, Cache @@ (c2 :> ProjKey(e.proj))) ELSE TRUE
 
 TraceSpec == TraceInit /\ [][TraceNext]_tvars
 
